@@ -259,9 +259,9 @@ Definition spec_cl (cl : clause) (w : world) (t0 : Z) (tr : trace) : Prop := spe
 Definition spec (w : world) (t0 : Z) (tr : trace) : Prop := spec_cl step_ok w t0 tr.
 
 (* ---------------------------------------------------------------- the finding classes.
-   A step is a TRIGGER of
-     class 1  (open) when a global logout is started for a subject with an involved IdP that is
-              asked over SOAP (the synchronous path does no bookkeeping at all);
+   A step (operation with its observed output) is a TRIGGER of
+     class 1  (fixed by 0bae05f7) when a global logout is started for a subject with an involved IdP that
+              is asked over SOAP (the synchronous path did no bookkeeping at all);
      class 2  (fixed by de5f1fed) when a successful LogoutResponse carries the id of a pending request
               of a transaction in progress but comes from another party than the one asked;
      class 3  (fixed by 73294247) when a successful LogoutResponse carries an id that the client still
@@ -270,18 +270,32 @@ Definition spec (w : world) (t0 : Z) (tr : trace) : Prop := spec_cl step_ok w t0
      class 4  (open, the residue of 3) when a successful LogoutResponse carries the id of a request
               that the client still keeps, of a transaction still in progress, whose addressee has
               ALREADY answered through another request of the same transaction (do_logout asks the
-              remaining IdPs again after every answer), and comes from that addressee.
-   Classes 2 and 3 are recognised so that a regression is attributed to them; the repaired code
-   never violates a clause there, so the guard only excludes the open classes. *)
-Definition trigger (w : world) (g : ghost) (vb : view) (o : op) : nat :=
+              remaining IdPs again after every answer), and comes from that addressee;
+     class 5  (open, the residue of 1) when a pass of do_logout over the IdPs still waited for (at the
+              start of a global logout, or after an answer, deadline not passed) contains an IdP that
+              answers Success over SOAP and the pass ends with an exception (a SOAP peer's failure
+              status, LogoutError for a SOAP peer without answer, an IdP without SLO endpoint, ...):
+              0bae05f7 records synchronous answers only after a pass that does not raise.
+   Classes 1, 2 and 3 are recognised so that a regression is attributed to them; the repaired code
+   never violates a clause there, so the guard only excludes the open classes 4 and 5. *)
+Definition is_exn (ou : out) : bool := match ou with OExn _ => true | _ => false end.
+Definition trigger (w : world) (g : ghost) (vb : view) (o : op) (ou : out) : nat :=
   match o with
-  | StartLogout s _ _ =>
-      if present vb s && existsb (asked_by_soap w) (issuers_of vb s) then 1%nat else 0%nat
-  | LogoutResponse r i true _ =>
+  | StartLogout s dl ans =>
+      if present vb s && existsb (asked_by_soap w) (issuers_of vb s) then
+        if negb (deadline_passed (g_now g) dl) && existsb (soap_ok w ans) (issuers_of vb s) && is_exn ou
+        then 5%nat else 1%nat
+      else 0%nat
+  | LogoutResponse r i true ans =>
       match g_owner g r with
       | Some (n, a) =>
           match g_txn g n with
-          | Some T => if (a =? i)%nat then 0%nat else 2%nat
+          | Some T =>
+              if (a =? i)%nat then
+                if negb (deadline_passed (g_now g) (t_deadline T))
+                   && existsb (soap_ok w ans) (wait_minus i (t_wait T)) && is_exn ou
+                then 5%nat else 0%nat
+              else 2%nat
           | None => if mem r (pending_ids vb) then 3%nat else 0%nat
           end
       | None =>
@@ -299,17 +313,17 @@ Definition trigger (w : world) (g : ghost) (vb : view) (o : op) : nat :=
   | _ => 0%nat
   end.
 
-Definition open_class (k : nat) : bool := (k =? 1)%nat || (k =? 4)%nat.
-Definition open_trigger (w : world) (g : ghost) (vb : view) (o : op) : nat :=
-  let k := trigger w g vb o in if open_class k then k else 0%nat.
+Definition open_class (k : nat) : bool := (k =? 4)%nat || (k =? 5)%nat.
+Definition open_trigger (w : world) (g : ghost) (vb : view) (o : op) (ou : out) : nat :=
+  let k := trigger w g vb o ou in if open_class k then k else 0%nat.
 
 Section First.
-  Variable trig : world -> ghost -> view -> op -> nat.
+  Variable trig : world -> ghost -> view -> op -> out -> nat.
   Fixpoint first_from (w : world) (g : ghost) (vb : view) (tr : trace) : nat :=
     match tr with
     | [] => 0%nat
     | (o, ou, va) :: r =>
-        match trig w g vb o with
+        match trig w g vb o ou with
         | O => first_from w (ghost_step w g vb o ou va) va r
         | k => k
         end
